@@ -9,13 +9,19 @@ import types
 
 from hypothesis import strategies as st
 
+from jv import gen
+from jv import hpcsim as H  # installs the simulation world's interposition before jade is imported (used by the flow sub-case)
+from jv import world as W
 from jv.props import direct as D
 
 ID = "C20"
 LEVEL = "exploration"
 BUDGET = {"quick": 3000, "thorough": 48000}
 RULE = (
-    "three generated sub-cases. events: a multiset of structured events (JADE's event names and generated ones, "
+    "four generated sub-cases. flow: a whole generated submission (1-6 jobs, reports on/off, operator commands, optional "
+    "resubmission) runs in the simulation world with event logging switched on and the event logger's configuration kept "
+    "per virtual process; every record that reached an *events.log file (observed at logging.FileHandler.emit) must appear "
+    "exactly once in EventsSummary(output), ordered by time, and consolidating again must not change it. events: a multiset of structured events (JADE's event names and generated ones, "
     "nested JSON data, plain and error events, timestamps with ties / second boundaries / zero microseconds) written "
     "through the real setup_event_logging + log_event into 1-5 per-process *events.log files plus per-job events.log "
     "files merged by JobRunner._aggregate_events -> EventsSummary(output).list_events(name) must equal the written "
@@ -27,14 +33,20 @@ RULE = (
     "per-process statistics; and the periodic path (ResourceMonitorLogger events -> EventsSummary -> "
     "CpuStatsViewer.get_stats_summary). tallies: generated result sets (finished rc >= 0, canceled rc != 0) plus "
     "missing names through JobSubmitter.write_results_summary and ResultsSummary.show_results -> the four counts "
-    "partition the jobs and equal the reference classes. non-trivial = events: >= 2 files and a timestamp tie; "
+    "partition the jobs and equal the reference classes. non-trivial = flow: >= 2 event files and >= 4 events; events: >= 2 files and a timestamp tie; "
     "stats: a non-decreasing sequence of length >= 2; tallies: >= 1 job in >= 3 classes; distinct by hash of the case"
 )
 ASSUMPTIONS = [
     "resource statistics are non-negative (utilisation percentages, byte and packet counts)",
     "events carry the timestamp format JADE itself writes (str(datetime))",
 ]
-setup, teardown = D.setup, D.teardown
+setup = D.setup
+
+
+def teardown():
+    D.teardown()
+    H.cleanup_scratch()
+
 
 JSONV = st.recursive(st.none() | st.booleans() | st.integers(-5, 5) | st.text(max_size=5),
                      lambda c: st.lists(c, max_size=3) | st.dictionaries(st.text(max_size=4), c, max_size=3), max_leaves=5)
@@ -86,8 +98,16 @@ tally_cases = st.fixed_dictionaries({
 })
 
 
+@st.composite
+def flow_cases(draw):
+    scn = draw(gen.scenarios(min_jobs=1, max_jobs=6, max_groups=2))
+    return {"kind": "flow", "scn": scn, "schedule": draw(gen.schedules(120)),
+            "resubmit": draw(st.sampled_from([False, False, True])),
+            "user": draw(st.lists(st.fixed_dictionaries({"at": st.integers(10, 200), "cmd": st.sampled_from(["try", "show"])}), max_size=2))}
+
+
 def strategy(tier):
-    return st.one_of(event_cases, event_cases, stats_cases, stats_cases, tally_cases)
+    return st.one_of(event_cases, event_cases, stats_cases, stats_cases, tally_cases, flow_cases())
 
 
 # ------------------------------------------------------------------------------------------ events
@@ -388,8 +408,99 @@ def run_tallies(case, res):
         shutil.rmtree(out, ignore_errors=True)
 
 
+# ------------------------------------------------------------------------------------------ events in real flows
+
+
+def run_flow(case, res):
+    """A whole generated submission in the simulation world with event logging on: every record that reached an
+    *events.log file (observed at logging.FileHandler.emit, per virtual process) must be in the consolidated summary."""
+    import sys
+
+    from jade.events import EventsSummary
+
+    v = res["violations"]
+    scn = case["scn"]
+    H.scratch_root()
+    saved = (sys.stdout, sys.stderr)
+    W.install_stdio()
+    try:
+        with H.Sim(scn, schedule=case["schedule"], event_logging=True) as sim:
+            w = sim.w
+            for u in sorted(case.get("user", []), key=lambda x: x["at"]):
+                def pred(ww, at=u["at"]):
+                    return ww.steps >= at and os.path.exists(os.path.join(sim.out, "submitter_groups.json"))
+
+                def fire(ww, cmd=u["cmd"]):
+                    if not sim.is_complete():
+                        sim.user_cmd(["try-submit-jobs", sim.out] if cmd == "try" else ["show-status", "-o", sim.out, "-n"])
+
+                w.user_events.append((u["cmd"], pred, fire, True))
+            sim.submit()
+            outcome = sim.drive()
+            w.user_events.clear()
+            if outcome == "complete" and case["resubmit"]:
+                sim.user_cmd(["resubmit-jobs", sim.out, "--successful"], name="resubmit")
+                sim.recovery_rounds = 0
+                outcome = sim.drive()
+                res["classes"].append("flow_resubmitted")
+            if outcome != "complete":
+                res["inconclusive"] = "flow-" + outcome.split(":")[0]
+                return
+            written = {}
+            files = set()
+            for fname, text, by in w.events_written:
+                if not os.path.realpath(fname).startswith(os.path.realpath(sim.out) + os.sep):
+                    continue
+                try:
+                    rec = json.loads(text)
+                except ValueError:
+                    v.append(D.viol("C20:event-record-not-json", f"{os.path.basename(fname)}: {text[:100]!r}"))
+                    continue
+                written.setdefault(rec["name"], []).append(rec)
+                files.add(os.path.basename(fname))
+            box = {}
+
+            def reader():
+                s1 = EventsSummary(sim.out)
+                box["lists"] = {n: [json.loads(str(e)) for e in s1.list_events(n)] for n in written}
+                s2 = EventsSummary(sim.out)
+                box["again"] = {n: [json.loads(str(e)) for e in s2.list_events(n)] for n in written}
+                raise SystemExit(0)
+
+            vt = w.spawn("reader", "login1", w.base_env, reader, "reader")
+            w.run()
+            if vt.exc or "lists" not in box:
+                v.append(D.viol("C20:flow-summary-failed", f"EventsSummary raised {vt.exc}"))
+                return
+            key = lambda d: json.dumps(d, sort_keys=True)  # noqa: E731
+            for name, recs in written.items():
+                got = box["lists"][name]
+                if sorted(map(key, got)) != sorted(map(key, recs)):
+                    gk = list(map(key, got))
+                    lost = [r for r in recs if key(r) not in gk]
+                    dup = len(got) - len(set(gk))
+                    v.append(D.viol("C20:flow-events-differ" + ("|lost" if lost else "|duplicated"),
+                                    f"event name {name}: {len(recs)} records reached the event files {sorted(files)}, the summary has "
+                                    f"{len(got)} ({dup} duplicates); e.g. missing {[(r['source'], r['message'], r['timestamp']) for r in lost[:2]]}"))
+                ts = [g["timestamp"] for g in got]
+                if ts != sorted(ts):
+                    v.append(D.viol("C20:flow-events-not-ordered-by-time", f"event name {name}: timestamps {ts[:6]}"))
+                if box["again"][name] != got:
+                    v.append(D.viol("C20:flow-consolidating-again-changes-events", f"event name {name}"))
+            res["counters"]["flow_events_written"] = sum(len(x) for x in written.values())
+            res["nontrivial"] = len(files) >= 2 and sum(len(x) for x in written.values()) >= 4
+            res["classes"].append("flow_reports_on" if scn["reports"] else "flow_reports_off")
+            if res["nontrivial"] or v:
+                res["sample"] = {"kind": "flow", "event_files": sorted(files), "written": {k: len(x) for k, x in written.items()},
+                                 "jobs": len(scn["jobs"]), "reports": scn["reports"]}
+            if v:
+                res["replay_log"] = sim.w.abridged_log(80)
+    finally:
+        sys.stdout, sys.stderr = saved
+
+
 def run_case(case):
     res = D.result()
     res["classes"].append("kind:" + case["kind"])
-    {"events": run_events, "stats": run_stats, "tallies": run_tallies}[case["kind"]](case, res)
+    {"events": run_events, "stats": run_stats, "tallies": run_tallies, "flow": run_flow}[case["kind"]](case, res)
     return res
